@@ -18,12 +18,14 @@ def lib():
     return shapepy, shp
 
 
-def snap_point(point):
-    return (O.to_fr(point._x), O.to_fr(point._y))
-
-
 def raw_point(point):
-    return (point._x, point._y)
+    """the two stored coordinate objects, read through the public indexing of Point2D"""
+    return (point[0], point[1])
+
+
+def snap_point(point):
+    x, y = raw_point(point)
+    return (O.to_fr(x), O.to_fr(y))
 
 
 def snap_segment(segment):
@@ -75,8 +77,9 @@ def raw_numbers(obj):
     for jordan in jordans:
         for segment in jordan.segments:
             for point in segment.ctrlpoints:
-                out.append(point._x)
-                out.append(point._y)
+                x, y = raw_point(point)
+                out.append(x)
+                out.append(y)
     return out
 
 
